@@ -345,6 +345,8 @@ def gen_config(rng, desc):
         desc["methods"], desc["target"] = ["dr"], None  # what the deprecated wrapper does
     if desc["pipeline"] == "pnr" and desc["placer_seed"] % 3 == 0:
         desc["custom_resources"] = True                 # (every third: the caller names the resources)
+    if desc["pipeline"] == "wrapper" and desc["placer_seed"] % 2 == 0:
+        desc["custom_resources"] = True                 # (every second run of the deprecated wrapper too)
 
 
 def public(desc):
@@ -484,8 +486,25 @@ def run_pipeline(env, desc, prepared=None):
         elif desc["pipeline"] == "wrapper":
             machine = env.machine(desc)
             cons = cons + env.busy_constraints(desc)
-            pl, al, _, tables = env.wrapper(vr, {v: "app" for v in vs}, nets, net_keys, machine, cons,
-                                            place=place, place_kwargs=pkw, route_kwargs={"radius": desc["radius"]})
+            # the router's keyword arguments are left to the wrapper's own default whenever the radius is the router's default,
+            # and every other run names the resources itself - so consecutive runs in this process differ in both
+            rkw = {} if desc["radius"] == 20 else {"route_kwargs": {"radius": desc["radius"]}}
+            if desc.get("custom_resources"):
+                ren = {env.Cores: "my-cores", env.SDRAM: ("my", "sdram")}
+                back = dict((v_, k_) for k_, v_ in ren.items())
+                vr2 = dict((v, dict((ren.get(r, r), n) for r, n in res.items())) for v, res in vr.items())
+                machine.chip_resources = dict((ren.get(r, r), n) for r, n in machine.chip_resources.items())
+                machine.chip_resource_exceptions = dict((c, dict((ren.get(r, r), n) for r, n in res.items()))
+                                                        for c, res in machine.chip_resource_exceptions.items())
+                cons2 = [env.C.ReserveResourceConstraint(ren.get(c.resource, c.resource), c.reservation, c.location)
+                         if isinstance(c, env.C.ReserveResourceConstraint) else c for c in cons]
+                pl, al2, _, tables = env.wrapper(vr2, {v: "app" for v in vs}, nets, net_keys, machine, cons2,
+                                                 place=place, place_kwargs=pkw, core_resource="my-cores",
+                                                 sdram_resource=("my", "sdram"), **rkw)
+                al = dict((v, dict((back.get(r, r), sl) for r, sl in a.items())) for v, a in al2.items())
+            else:
+                pl, al, _, tables = env.wrapper(vr, {v: "app" for v in vs}, nets, net_keys, machine, cons,
+                                                place=place, place_kwargs=pkw, **rkw)
         else:
             si = env.system_info(desc)
             if desc.get("custom_resources"):
